@@ -93,6 +93,8 @@ def run(name, props=None):
         # a later fix: commit touched neighbouring lines: fall back to a three-way merge of the same change
         rc, out = sh(["git", "-C", REPO, "apply", "--3way", os.path.join(dst, "patch.diff")])
         sh(["git", "-C", REPO, "reset", "-q"])
+        if rc != 0:
+            sh(["git", "-C", REPO, "checkout", "--", "."])
     assert rc == 0, out
     try:
         for prop in props:
